@@ -287,14 +287,14 @@ mod verif_c15 {
 
     // ---- HumanFloatCount: grouping / sign / trimming logic over an arbitrary rendering of the number ----
     static mut FMT_LEN: usize = 0;
-    static mut FMT_BYTES: [u8; 16] = [0; 16];
+    static mut FMT_BYTES: [u8; 12] = [0; 12];
 
     fn stub_format(_args: fmt::Arguments<'_>) -> String {
-        let mut s = String::from("0000000000000000");
+        let mut s = String::from("000000000000");
         unsafe {
             let v = s.as_mut_vec();
             let mut i = 0;
-            while i < 16 {
+            while i < 12 {
                 v[i] = FMT_BYTES[i];
                 i += 1;
             }
@@ -544,7 +544,7 @@ mod verif_c15 {
     // @harness id=C15 tier=quick timeout=1200 mem=10
     // @bounds HumanFloatCount when the number renders as "inf": emitted unchanged, no separator, no panic
     #[kani::proof]
-    #[kani::unwind(8)]
+    #[kani::unwind(15)]
     #[kani::stub(std::fmt::format, stub_format)]
     fn c15_float_count_inf() {
         nonfinite(b"inf");
@@ -553,7 +553,7 @@ mod verif_c15 {
     // @harness id=C15 tier=quick timeout=1200 mem=10
     // @bounds HumanFloatCount when the number renders as "-inf": emitted unchanged, no separator, no panic
     #[kani::proof]
-    #[kani::unwind(8)]
+    #[kani::unwind(15)]
     #[kani::stub(std::fmt::format, stub_format)]
     fn c15_float_count_neg_inf() {
         nonfinite(b"-inf");
@@ -562,7 +562,7 @@ mod verif_c15 {
     // @harness id=C15 tier=quick timeout=1200 mem=10
     // @bounds HumanFloatCount when the number renders as "NaN": emitted unchanged, no separator, no panic
     #[kani::proof]
-    #[kani::unwind(8)]
+    #[kani::unwind(15)]
     #[kani::stub(std::fmt::format, stub_format)]
     fn c15_float_count_nan() {
         nonfinite(b"NaN");
